@@ -385,6 +385,19 @@ pub fn run_c06(p: &mut Prng, _t: Tier, i: usize, sink: &mut Sink) {
                 }
             }
             // crafted, consistent: valid point with tiny x, sent as x + p (coordinate >= p)
+            // the point (0, sqrt(b)) sent with x = p exactly (and canonically, which must decrypt)
+            {
+                let zero = BigUint::from(0u32);
+                if let Some(ys) = rsm2::with_curve(|c| c.sqrt(&(&bb % &pp))) {
+                    if let Some(c) = crafted_ct(&d, &zero, &ys, &pp, &msg, order) {
+                        w.bump("fault.crafted-coordinate-ge-p");
+                        branches.push(vec![set("a.ct", &c), dec()]);
+                    }
+                    if let Some(c) = crafted_ct(&d, &zero, &ys, &zero, &msg, order) {
+                        branches.push(vec![set("a.ct", &c), dec()]);
+                    }
+                }
+            }
             let mut xs = BigUint::from(p.range(1, 1000));
             for _ in 0..64 {
                 let g = (&xs * &xs * &xs + &aa * &xs + &bb) % &pp;
